@@ -168,6 +168,17 @@ def run_lowpass(model_fs, covs, nseq, nsub, thr, Fx, nsim, seed):
     return captured.get('pre'), out
 
 
+def low_then_deep(model, low_covs, covs, nseq, nsub, thr, Fx, nsim, seed):
+    """Evaluate, in this process and immediately before the deep-coverage wrapper, a LOW-coverage wrapper with identical
+    sizes and settings (its result is discarded): whatever the library keeps between wrappers must not leak into the
+    deep-coverage model.  Returns run_lowpass's result for the deep-coverage wrapper."""
+    try:
+        run_lowpass(model, low_covs, nseq, nsub, thr, Fx, nsim, seed)
+    except Exception:
+        pass
+    return run_lowpass(model, covs, nseq, nsub, thr, Fx, nsim, seed)
+
+
 def reexecute_lowpass(rec):
     """Run a 'deep' or 'precalc' case again on the current tree from the record's inputs (seeded, hence reproducible)."""
     import dadi
@@ -181,10 +192,14 @@ def reexecute_lowpass(rec):
     else:
         model = dadi.Spectrum(np.ones(tuple(n + 1 for n in i['nseq'])))
     try:
-        pre, out = run_lowpass(model, covs, i['nseq'], i['nsub'], fl(i['thr']), Fx, i['nsim'], i['seed'])
+        if 'pre_covs' in i:
+            low = [np.array([np.arange(len(c), dtype=float), [fl(v) for v in c]]) for c in i['pre_covs']]
+            pre, out = low_then_deep(model, low, covs, i['nseq'], i['nsub'], fl(i['thr']), Fx, i['nsim'], i['seed'])
+        else:
+            pre, out = run_lowpass(model, covs, i['nseq'], i['nsub'], fl(i['thr']), Fx, i['nsim'], i['seed'])
     except Exception as e:
         return dict(rec, out={'raised': type(e).__name__})
-    return dict(rec, out={'s': enc(out)} if rec['op'] == 'deep' else enc_pre(pre))
+    return dict(rec, out={'s': enc(out)} if rec['op'] in ('deep', 'deep_sim') else enc_pre(pre))
 
 
 def gen_model(rng, nseq, kind=None):
@@ -274,8 +289,10 @@ def records(ctx):
         Fs = [0.0] * P if Fx is None else Fx
         model = gen_model(rng, nseq)
         seed = ctx.seed + 1000 + k
+        low_covs = None
         if kind == 'deep':
             covs = [gen_cov(rng, 'deep') for _ in range(P)]
+            low_covs = [gen_cov(rng, 'poisson', D=rng.choice([5, 10, 20])) for _ in range(P)]
             thr = rng.choice([1.0, 1e-2, 0.5, 10 ** rng.uniform(-6, 0)])
             nsim = 50
         else:
@@ -289,7 +306,11 @@ def records(ctx):
         base = {'covs': [enc_cov(c) for c in covs], 'nseq': nseq, 'nsub': nsub, 'thr': rat(thr), 'F': [rat(f) for f in Fs],
                 'Fx_given': Fx is not None, 'nsim': nsim, 'seed': seed}
         try:
-            pre, out = run_lowpass(model, covs, nseq, nsub, thr, Fx, nsim, seed)
+            if low_covs is not None:
+                base['pre_covs'] = [enc_cov(c) for c in low_covs]
+                pre, out = low_then_deep(model, low_covs, covs, nseq, nsub, thr, Fx, nsim, seed)
+            else:
+                pre, out = run_lowpass(model, covs, nseq, nsub, thr, Fx, nsim, seed)
         except Exception as e:
             add('deep' if kind == 'deep' else 'apply', dict(base, s=enc(model)), {'raised': type(e).__name__}, S_APPLY)
             continue
@@ -307,7 +328,12 @@ def records(ctx):
         seed = ctx.seed + 5000 + j
         base = {'covs': [enc_cov(c) for c in covs], 'nseq': nseq, 'nsub': nsub, 'thr': '1', 'F': ['0'], 'Fx_given': False, 'nsim': 100, 'seed': seed}
         try:
-            pre, out = run_lowpass(model, covs, nseq, nsub, 1.0, None, 100, seed)
+            if kind == 'deep':
+                low_covs = [gen_cov(rng, 'poisson', D=20)]
+                base['pre_covs'] = [enc_cov(c) for c in low_covs]
+                pre, out = low_then_deep(model, low_covs, covs, nseq, nsub, 1.0, None, 100, seed)
+            else:
+                pre, out = run_lowpass(model, covs, nseq, nsub, 1.0, None, 100, seed)
         except Exception as e:
             add('deep' if kind == 'deep' else 'apply', dict(base, s=enc(model)), {'raised': type(e).__name__}, S_APPLY)
             continue
@@ -317,6 +343,29 @@ def records(ctx):
             epre = enc_pre(pre)
             add('precalc', base, epre, S_PRE)
             add('apply', {'s': enc(model), 'nsub': nsub, 'nseq': nseq, 'thr': '1', 'pre': epre}, {'s': enc(out)}, S_APPLY)
+    # deep coverage in the SIMULATED regime (sim_threshold = 0, subsampling nsub < nseq somewhere): the corrected model must be
+    # within the sampling error of the subsampled model; again preceded by a low-coverage wrapper with the same settings
+    for k, P in enumerate([1] * (4 if q else 24) + [2] * (2 if q else 10)):
+        while True:
+            sizes = [gen_sizes(rng, hi=12 if P == 1 else 6, lo=4) for _ in range(P)]
+            if any(b < a for a, b in sizes):
+                break
+        nseq = [a for a, b in sizes]
+        nsub = [b for a, b in sizes]
+        Fx = None if rng.random() < 0.6 else [rng.choice([0.0, rng.uniform(0.05, 0.9)]) for _ in range(P)]
+        Fs = [0.0] * P if Fx is None else Fx
+        model = gen_model(rng, nseq, kind=rng.choice(['random', 'neutralish']))
+        covs = [gen_cov(rng, 'deep') for _ in range(P)]
+        low_covs = [gen_cov(rng, 'poisson', D=10) for _ in range(P)]
+        nsim = 2000
+        seed = ctx.seed + 6000 + k
+        base = {'covs': [enc_cov(c) for c in covs], 'pre_covs': [enc_cov(c) for c in low_covs], 'nseq': nseq, 'nsub': nsub, 'thr': '0',
+                'F': [rat(f) for f in Fs], 'Fx_given': Fx is not None, 'nsim': nsim, 'seed': seed, 's': enc(model)}
+        try:
+            pre, out = low_then_deep(model, low_covs, covs, nseq, nsub, 0.0, Fx, nsim, seed)
+            add('deep_sim', base, {'s': enc(out)}, S_APPLY)
+        except Exception as e:
+            add('deep_sim', base, {'raised': type(e).__name__}, S_APPLY)
     # 5. the simulator on its own (random by construction: closure clauses only)
     for k in range(10 if q else 80):
         P = rng.choice([1, 1, 2, 3])
@@ -420,6 +469,14 @@ def mutate(rec):
         j = cand[len(cand) // 2]
         d[j] = rat(Fraction(d[j]) * BUMP)
         return rec
+    if op == 'deep_sim':      # a statistical clause: the corruption must be gross (largest cell tripled)
+        d = out['s']['d']
+        cand = [j for j in range(1, len(d)) if d[j] not in ('nan', 'inf', '-inf') and Fraction(d[j]) != 0]
+        if not cand:
+            return None
+        j = max(cand, key=lambda t: Fraction(d[t]))
+        d[j] = rat(Fraction(d[j]) * 3)
+        return rec
     if op == 'sim_calling':
         return rec if _bump_seq(out['d']) else None
     if op == 'sim_reads':
@@ -461,6 +518,8 @@ def nontrivial(r):
         return (op, i['nseq'], i['nsub'], fclass(i['F'])) if i['nsub'] < i['nseq'] else None
     if op in ('cem', 'nocall', 'enough'):
         return (op, common.digest(i))
+    if op == 'deep_sim':
+        return (op, tuple(i['nseq']), tuple(i['nsub']), common.digest(i['covs']))
     if op in ('precalc', 'apply', 'deep'):
         regime = 'analytic'
         if op != 'deep':
@@ -471,7 +530,7 @@ def nontrivial(r):
 
 
 VALUE_CLAUSES = {'PartsProbValue', 'PartInbValue', 'ProjMatValue', 'CallErrValue', 'NoCallValue', 'NoCallNDValue', 'SubsampleMatValue',
-                 'DeepEqualsSubsampling', 'DeepEqualsProjection', 'ApplyComposition'}
+                 'DeepEqualsSubsampling', 'DeepEqualsProjection', 'ApplyComposition', 'DeepSimWithinSamplingError'}
 
 
 def smallest_positive_F(rec):
@@ -502,7 +561,7 @@ def run(ctx):
         ctx.no_mc = True
         if rec['op'] in HELPER_SITE:      # deterministic helper: execute the case again on the current tree
             rec = dict(rec, out=call_helper(rec['op'], rec['in']))
-        elif rec['op'] in ('deep', 'precalc') and 'covs' in rec['in']:
+        elif rec['op'] in ('deep', 'deep_sim', 'precalc') and 'covs' in rec['in']:
             rec = reexecute_lowpass(rec)
         recs = [rec]
     else:
@@ -520,4 +579,8 @@ def run(ctx):
                      'with inbreeding F > 0 the deep-coverage limit is subsampling of individuals under inbreeding (DeepLimit); it is the plain '
                      'hypergeometric projection only for F = 0, where both are checked',
                      'simulated regime: only closure clauses (distribution over the called spectrum, composition of the observed components), numpy RNGs seeded',
+                     'deep coverage in the simulated regime (sim_threshold 0, nsim 2000): |corrected - subsampled model| <= bias + 8 sqrt(V) per cell, '
+                     'V = sum_j M_j^2 (q(1-q) + 1/n_j)/n_j, n_j = nsim - #configurations(j), bias = sum_j M_j 2 #configurations(j)/n_j + 1e-12 max '
+                     '(stratified multinomial sampling error of the simulator plus its stratum-weight truncation)',
+                     'every deep-coverage wrapper is evaluated immediately after a low-coverage wrapper with identical sizes, Fx, sim_threshold and nsim in the same process',
                      'model spectra are non-negative; masked model entries carry no sites'])
